@@ -1,4 +1,5 @@
 import PgBifrost.Proofs.ClientC03
+import PgBifrost.Model.ConnManager
 import PgBifrost.Gen.ClientSites
 /-!
 # C03 — acknowledged position monotone and ledger-sourced; restarts never ahead
@@ -100,5 +101,30 @@ example : c03Sourced [(⟨[], .keepalive false 100 0, false⟩, []),
 example : c03Restarts [(⟨[], .keepalive false 100 0, false⟩, []),
     (⟨[], .data 110 (.commit "7") 0 [], false⟩, []), (⟨[], .closedErr, false⟩, [.getconn 111 true])] = false := by
   decide
+
+/-! ## the connection manager (`conn/manager.go`, tied by the `connmgr` component over TCP) -/
+
+/-- every START_REPLICATION the manager issues carries exactly the LSN of the call that opened the
+connection, and is issued only when there was no live connection -/
+theorem manager_start_exact (c : PgBifrost.ConnManager.Conn) (ops : List PgBifrost.ConnManager.Op) :
+    ∀ (i l : Nat), (PgBifrost.ConnManager.run c ops)[i]? = some (.start l) → ops[i]? = some (.getRepl l) := by
+  induction ops generalizing c with
+  | nil => intro i l h; simp [PgBifrost.ConnManager.run] at h
+  | cons op r ih =>
+    intro i l h
+    cases i with
+    | zero =>
+      simp only [PgBifrost.ConnManager.run, List.getElem?_cons_zero, Option.some.injEq] at h
+      cases op <;> simp only [PgBifrost.ConnManager.step] at h
+      · split at h <;> simp_all
+      · split at h <;> simp_all
+      · simp at h
+      · simp at h
+    | succ j =>
+      simp only [PgBifrost.ConnManager.run, List.getElem?_cons_succ] at h ⊢
+      exact ih _ j l h
+
+example : PgBifrost.ConnManager.run .none [.getRepl 0, .getRepl 7, .drop, .getRepl 1080, .close, .getPlain] =
+    [.start 0, .reuse, .ok, .start 1080, .ok, .dial] := by decide
 
 end PgBifrost.Props.C03
